@@ -126,4 +126,37 @@ def parse_step_obs(chk, tag, states=range(0, 16), checks="none", callbacks=False
                 add(st, "INT", 1, F["IGNORE"], 1, force10=False)
             if st == 10:
                 add(st, "INT", 1, F["IGNORE"] | F["COMMENTS"], 0)
-    return obs
+    if tier != "quick":
+        # thorough: the same states one nesting level down, more existing values, case-insensitive contexts
+        if 1 in S:
+            for k in SCALARS + LISTS:
+                add(1, k, 1, 0, 1)
+        if 2 in S:
+            for k in SCALARS:
+                add(2, k, 1, F["NOCASE"], 1, extra=("WITH_PARSECB",) if k == "PTR" else ())
+            for k in LISTS:
+                add(2, k, 2, 0, 1)
+                add(2, k, 2, F["COMMENTS"], 0)
+        if 3 in S:
+            for k in LISTS:
+                add(3, k, 1, 0, 1)
+        if 4 in S:
+            for k in LISTS:
+                add(4, k, 2, 0, 1)
+        if 5 in S:
+            add(5, "SECM", 2, F["NOCASE"], 1)
+            add(5, "SEC", 1, 0, 1)
+            add(5, "SECT", 2, 0, 1, extra=("NEWTITLE='A'",))
+            add(5, "SECTU", 2, 0, 1, extra=("NEWTITLE='B'",))
+        if 6 in S:
+            add(6, "SECT", 2, 0, 1)
+        for st in (7, 8, 9):
+            if st in S:
+                add(st, "FUNC", 0, 0, 1, nargs=1 if st >= 8 else 0, extra=("TRACK_CALLOC",) if st >= 8 else ())
+    seen = set()
+    uniq = []
+    for o in obs:
+        if o.key not in seen:
+            seen.add(o.key)
+            uniq.append(o)
+    return uniq
